@@ -704,7 +704,67 @@ def _rename_key_rule(ctx, mpq):
                 "an encrypted file stays encrypted under the key of its old name; read under the new name it decrypts to garbage (or fails to decompress) although rename reported success")
 
 
+
+def _session_files_stored_plain_rule(ctx, mpq):
+    """the in-session reader of MutableArchive (read_current_file) serves a block it wrote itself only when that block is stored
+    plain — for a compressed or encrypted block it falls back to the read-only view taken at open, i.e. to the file's content
+    *before* the session.  So every internal file the modifier reads back through it ("(listfile)", "(attributes)") must be
+    written plain by the modifier, on every value its options can take; otherwise the second maintenance step of a session starts
+    from stale content and names added earlier in the session drop out of the listing."""
+    R = ctx.rule("C06.session-maintained-files-are-stored-plain", "every add_file_data(.., \"(name)\", options) in modification.rs for a name the modifier reads back through read_current_file uses compression None (every tail of the value) and no encryption — or read_current_file has no fallback to the open-time view for compressed blocks", floor=3)
+    M_ = "wow_mpq::modification::MutableArchive::"
+    rcf = mpq.fns.get(M_ + "read_current_file")
+    if rcf is None or not rcf.hir:
+        ctx.bad(R, "read_current_file|missing", "-", "function not found", "anchor gone")
+        return
+    ctx.saw_fn(rcf)
+    stale = any(n.get("k") == "if" and re.search(r"is_compressed\(\)|is_encrypted\(\)", hirq.render(n["c"])) and
+                any(c.get("k") == "mcall" and c["m"] == "read_file" and re.search(r"self\.archive$", hirq.render(c["recv"])) for c in hirq.walk(n["then"]))
+                for n in hirq.find(rcf.hir["body"], "if"))
+    read_back = set()
+    writers = []
+    for f in mpq.fn_list:
+        if not f.file.endswith("modification.rs") or f.kind == "Closure" or not f.hir or "::tests::" in f.path:
+            continue
+        for c in hirq.walk(f.hir["body"]):
+            if c.get("k") == "mcall" and c["m"] == "read_current_file" and c.get("args") and hirq.lit_str(hirq.strip(c["args"][0])):
+                read_back.add(hirq.lit_str(hirq.strip(c["args"][0])))
+            if c.get("k") == "mcall" and c["m"] == "add_file_data" and len(c.get("args") or []) == 3 and hirq.lit_str(hirq.strip(c["args"][1])):
+                writers.append((f, c))
+    if not stale:
+        ctx.ok(R, {"read_current_file": "no fallback to the open-time view for compressed / encrypted blocks"})
+        ctx.rules[R]["floor"] = 1
+        return
+    for f, c in writers:
+        name = hirq.lit_str(hirq.strip(c["args"][1]))
+        if name not in read_back:
+            continue
+        body = f.hir["body"]
+        chain_roots = [v for v in hirq.value_leaves(body, c["args"][2]) if v is not None]
+        comp_vals, enc = [], False
+        saw_comp = False
+        for root in chain_roots:
+            x = hirq.strip(root)
+            while x.get("k") == "mcall":
+                if x["m"] == "compression" and x.get("args"):
+                    saw_comp = True
+                    comp_vals += [v for v in hirq.value_leaves(body, x["args"][0]) if v is not None]
+                if x["m"] in ("encrypt", "fix_key"):
+                    enc = True
+                x = hirq.strip(x["recv"])
+        notplain = [v for v in comp_vals if not (v.get("k") == "path" and (v["res"].get("def") or "").endswith("CompressionMethod::None"))]
+        fn_ = norm(f.path).split("::")[-1]
+        ctx.saw_fn(f)
+        if saw_comp and not notplain and not enc:
+            ctx.ok(R, {"fn": fn_, "file": name, "compression": "None on every value"})
+        else:
+            what = "encrypted" if enc else ("compression `%s`" % hirq.render(notplain[0])[:40] if notplain else "the default compression of AddFileOptions")
+            ctx.bad(R, "%s|%s|not-plain" % (fn_, name), "%s:%d" % (f.file, c.get("ln") or 0), "%s rewrites %s with %s" % (fn_, name, what),
+                    "read_current_file cannot read such a block back and silently answers with the %s of the archive as it was opened: the next update of %s in the same session starts from stale content — names added or renamed earlier in the session drop out, removed ones return" % (name, name))
+
+
 def run_extra(ctx):
     """rules armed after run(): shared rules that need nothing from run()'s locals"""
     from ..shared import setters_keep_other_settings_rule
     setters_keep_other_settings_rule(ctx, [ctx.prog.crate(c) for c in ["wow_mpq"]], "C06", "modification::AddFileOptions$", floor=3)
+    _session_files_stored_plain_rule(ctx, ctx.prog.crate("wow_mpq"))
